@@ -143,3 +143,56 @@ theorem getValues_spec (c : HCfg) (t : HashTable) (m : Mem) (h : t.Inv c) (a : D
     rw [r3, hw]; unfold Map.vals abs; rw [List.map_map]; rfl
 
 end CC.HashTable
+
+namespace CC.DArr
+open CC CC.HT CC.Spec
+
+theorem firstN_memcpy (d s : Buf Nat) (n : Nat) (hd : n ≤ d.length) :
+    (d.memcpy 0 s 0 n).firstN n = s.firstN n := by
+  unfold Buf.firstN
+  apply List.map_congr_left
+  intro j hj
+  have hjn : j < n := List.mem_range.mp hj
+  rw [Buf.get_memcpy _ _ _ _ _ _ (by omega)]
+  simp [hjn]
+
+/-- `cc_array_add` on any array built by `get_keys/get_values` (full or not) appends: a full array
+grows (its configuration carries the default expansion factor), which is what makes the derived
+array a fully usable container -/
+theorem add_spec (c : HCfg) (a : DArr) (x : Nat) (m : Mem) (h : a.Inv) (hmax : a.cap < Gen.CC_MAX_ELEMENTS) :
+    ((a.add c x m).1 = .ok → (a.add c x m).2.1.Inv ∧ (a.add c x m).2.1.contents = a.contents ++ [x]) ∧
+    ((a.add c x m).1 ≠ .ok → (a.add c x m).1 = .errAlloc ∧ (a.add c x m).2.1 = a ∧ (a.add c x m).2.2.live = m.live) ∧
+    (m.sched = [] → (a.add c x m).1 = .ok) ∧
+    (a.add c x m).2.2.fault = m.fault := by
+  by_cases hroom : a.size < a.cap
+  · obtain ⟨a1, a2, a3, a4, a5, a6⟩ := add_room c a x m h hroom
+    exact ⟨fun _ => ⟨a2, a3⟩, fun hne => absurd a1 hne, fun _ => a1, by rw [a6]⟩
+  · obtain ⟨h1, h2, h3⟩ := h
+    have hfull : a.size = a.cap := by omega
+    have hge : a.size ≥ a.cap := by omega
+    have hne : ¬ a.cap = Gen.CC_MAX_ELEMENTS := by omega
+    unfold add expand
+    simp only [hge, if_true, hne, if_false]
+    generalize hnc : (if c.agrow a.cap ≤ a.cap then (if a.cap < Gen.CC_MAX_ELEMENTS / 2 then a.cap + 1 else Gen.CC_MAX_ELEMENTS) else c.agrow a.cap) = nc
+    have hncgt : a.cap < nc := by
+      rw [← hnc]; split
+      · split <;> omega
+      · omega
+    cases ha : m.alloc.1 with
+    | false =>
+      have e1 := Mem.alloc_fst_false m ha
+      simp only [Bool.not_false, if_true, ne_eq, reduceCtorEq, not_false_eq_true]
+      refine ⟨by simp, fun _ => ⟨trivial, trivial, e1.1⟩, ?_, e1.2.1⟩
+      intro hs; have := (Mem.alloc_nil m hs).1; rw [ha] at this; cases this
+    | true =>
+      have e1 := Mem.alloc_fst_true m ha
+      have hchk : (decide (a.size ≤ nc) && decide (a.size ≤ a.buf.length)) = true := by simp; omega
+      have hfr := free_spec m.alloc.2 (by omega)
+      have hchk2 : decide (a.size < ((Buf.mk nc : Buf Nat).memcpy 0 a.buf 0 a.size).length) = true := by simp; omega
+      simp only [Bool.not_true, Bool.false_eq_true, if_false, hchk, Mem.check_true, ne_eq, not_true_eq_false, hchk2]
+      refine ⟨fun _ => ⟨⟨by simp only; omega, by simp, by simp only; omega⟩, ?_⟩, by simp, by simp, by rw [hfr.2.1, e1.2.1]⟩
+      unfold contents; simp only
+      rw [firstN_succ, firstN_put _ _ _ _ (Nat.le_refl _), Buf.get_put_eq _ _ _ (by simp; omega),
+        firstN_memcpy _ _ _ (by simp; omega)]
+
+end CC.DArr
